@@ -289,6 +289,21 @@ def run(P, R, tier):
             gt = norm(guard) if guard is not None else ''
             names = astq.names_in(guard) if guard is not None else set()
             ok = guard is not None and keyp in names and 'result' not in names and all(t not in gt for t in ('Series', 'DataFrame'))
+            # the test must admit column keys only: isinstance(key, <label containers>) / np.isscalar(key); a duck-typed
+            # "is it list-like" test also admits a boolean mask Series
+            duck = [norm(x.func) for x in ast.walk(guard) if isinstance(x, ast.Call) and (norm(x.func).split('.')[-1] in ('is_list_like', 'is_iterator', 'is_sequence', 'is_array_like', 'iterable', 'hasattr', 'is_bool_dtype'))] if guard is not None else []
+            types = set()
+            for x in (ast.walk(guard) if guard is not None else []):
+                if isinstance(x, ast.Call) and norm(x.func) == 'isinstance' and len(x.args) == 2 and keyp in astq.names_in(x.args[0]):
+                    ts = x.args[1].elts if isinstance(x.args[1], ast.Tuple) else [x.args[1]]
+                    types |= {norm(t) for t in ts}
+            label_types = {'np.ndarray', 'numpy.ndarray', 'list', 'tuple', 'str', 'pd.Index', 'pandas.Index', 'int', 'bytes', 'slice'}
+            if ok and duck:
+                ok = False
+                gt += ' (duck-typed: a boolean-mask Series passes it)'
+            elif ok and types - label_types:
+                R.abstain('C12.g', gi, c, f'selection key admitted by types {sorted(types - label_types)} not known to be label containers')
+                continue
             R.check(ok, 'C12.g', gi, c, 'cached partition bounds/sindex are propagated only under a test on the type of the selection key (column selections)',
                     f'cached partition bounds are propagated under `{gt}`: row selections (boolean masks) inherit bounds of partitions whose rows changed')
     R.floor('C12.g', 'cache propagation sites in __getitem__', nprop, 2)
